@@ -89,6 +89,22 @@ def lean_files():
     return sorted(out)
 
 
+def import_closure(roots):
+    """Lean source files reachable through `import RichModel.*` / `import Drivers.*` from the given modules."""
+    seen, todo = {}, list(roots)
+    while todo:
+        mod = todo.pop()
+        if mod in seen:
+            continue
+        path = os.path.join(LEAN, *mod.split(".")) + ".lean"
+        if not os.path.exists(path):
+            continue
+        seen[mod] = path
+        for m in re.finditer(r"^\s*(?:public\s+)?import\s+((?:RichModel|Drivers)\.[\w.]+)", open(path, encoding="utf-8").read(), flags=re.M):
+            todo.append(m.group(1))
+    return sorted(seen.values())
+
+
 def props_file(prop):
     return os.path.join(LEAN, "RichModel", "Props", f"{prop}.lean")
 
@@ -174,8 +190,8 @@ class Ctx:
             if rc != 0:
                 self.build_errors.append(f"lake build {mod} failed (a proof obligation no longer checks):\n" + _tail(out))
                 return
-            # forbidden tokens anywhere in the Lean sources
-            for path in lean_files():
+            # forbidden tokens anywhere in the Lean sources this property depends on (import closure)
+            for path in import_closure([mod, f"Drivers.{self.prop}"]):
                 src = strip_comments(open(path, encoding="utf-8").read())
                 m = FORBIDDEN.search(src)
                 if m:
